@@ -91,6 +91,8 @@ package main
 //@   call http.Handler.ServeHTTP requires [C19] json-headers: gHdr["Content-Type"] == "application/json"
 
 //@ func skylight.newRateLimitHandler$1 props C19
+//@   call http.Handler.ServeHTTP requires [C19] allowed-requests-reach-the-file-server-with-their-response-headers-untouched: gHdr == old(gHdr) && c_arg1 == w && c_arg2 == r
+//@   call http.Handler.ServeHTTP requires [C19] wraps-the-given-handler: c_recv == handler
 //@   call http.Error requires [C19] error-drops-content-headers: gHdr["Content-Encoding"] == "" && gHdr["Cache-Control"] == "" && c_code == 429
 
 //@ func skylight.main@"/{origin}/" props C19
